@@ -170,7 +170,7 @@ def strip_in_order(term):
         elif head.split("::")[-1] == "enumerate" and len(args) == 1 and not enum:
             enum = True
             term = args[0]
-        elif head == "Index::index" and len(args) == 2 and args[1] in ("RangeFull", "RangeFull()"):
+        elif head.split("::")[-1] == "index" and len(args) == 2 and args[1] in ("RangeFull", "RangeFull()"):      # Index::index / <[T] as Index>::index
             term = args[0]
         else:
             return term, enum
@@ -480,11 +480,33 @@ def run(ctx):
             feed_bbs = [bb for bb, t in steps]
         # ---- counter
         cons = [(bb, t) for bb, t in b.calls() if call_matches(t, r"^std::io::BufRead::consume$")]
+        # A consume site may state the number of bytes handed over so far *directly* instead of reading a counter variable:
+        #   * `index + 1` of the enumerate()d whole-slice traversal, at a site that belongs to the iteration of byte #index (dominated by the
+        #     Some edge of that next()): the earlier iterations each passed the step once (hypothesis above), this one passed it before the
+        #     consume (every path to an exit passes the step; no step is reachable after a consume - checked below) => index + 1 bytes;
+        #   * the length of fill_buf()'s slice, at a site reached only through the None edge of the traversal (or after an internal iteration
+        #     that cannot stop early): every byte was handed over => len bytes.
+        # Such sites need no counter; the remaining sites must all read one counter variable, for which the hypotheses below are decided.
+        def states_count_directly(cbb, ct):
+            if len(ct["args"]) < 2:
+                return False
+            ce = expr(b, ct["args"][1])
+            m_len = re.fullmatch(r"(?:slice|Vec|\[T\])::len\((.*)\)", ce)
+            whole = m_len is not None and re.match(FILL_BUF_SLICE, strip_in_order(m_len.group(1))[0]) is not None
+            if feed["form"] == "loop":
+                if index_rx is not None and is_increment_of(ce, "\0", index_rx):
+                    return cfg.edge_dominates(sw, some_t, cbb)
+                return whole and cfg.edge_dominates(sw, none_t, cbb)
+            nm_ = (callee_name(feed["t"]) or "").split("::")[-1]
+            return whole and nm_ in ("for_each", "fold") and cbb != feed["bb"] and cfg.dominates(feed["bb"], cbb)
+        direct = [(bb, t) for bb, t in cons if states_count_directly(bb, t)]
+        var_cons = [(bb, t) for bb, t in cons if (bb, t) not in direct]
         cl = None
-        for bb, t in cons:
+        for bb, t in var_cons:
             src_l = chase_copies(b, t["args"][1]) if len(t["args"]) > 1 else None
             cl = src_l if cl is None or cl == src_l else -1
-        okc = bool(cons) and cl not in (None, -1)
+        okc = bool(var_cons) and cl not in (None, -1)
+        counter_free = bool(cons) and not var_cons
         incs = []
         inits = []
         if okc:
@@ -532,7 +554,10 @@ def run(ctx):
                     okc = okc and cfg.edge_dominates(sw, some_t, incs[0]) and innermost_loop(loops, incs[0]) == head
                 else:
                     okc = okc and innermost_loop(rcfg.loops(), incs[0]) is None
-        ctx.instance("FOLD", {"fn": path, "hyp": "counter = 0 before the traversal, += 1 once per byte before the step", "ok": okc})
+        if counter_free:
+            okc = True
+        ctx.instance("FOLD", {"fn": path, "hyp": "counter = 0 before the traversal, += 1 once per byte before the step", "ok": okc,
+                              "sites_stating_the_count_directly": len(direct), "sites_reading_the_counter": len(var_cons)})
         if not okc:
             ctx.violation("FOLD", path, "counter", "the consumed-byte counter is not incremented exactly once per byte handed to the step", sites=[b.loc])
         # ---- consume on every exit after a successful fill_buf
